@@ -1,7 +1,7 @@
 /- Line-protocol driver for the C04 model: one JSON request per line, one JSON answer per line.
 
   {"op":"session","syms":[..],"bindings":[[..],..],"events":[EV,..]}
-     EV = {"ev":"init","table":[[key,v,axis],..]}
+     EV = {"ev":"init","table":[[key,v,axis,EXPR|null],..]}
         | {"ev":"bind","v":name,"dims":[[key|null,axis,EXPR|null],..]}
         | {"ev":"scope","parent":[[key,v,axis],..],"fin":name,"dims":[[key|null,axis,EXPR|null],..]}
         | {"ev":"call","exprs":[EXPR,..]}
@@ -91,7 +91,15 @@ def dedupTable (t : OTable) : List (String × Origin) :=
 def stepEvent (syms : List String) (bindings : List (List Int)) (st : St) (ev : Json) : R St := do
   let kind ← (← ev.getObjVal? "ev").getStr?
   match kind with
-  | "init" => pure { st with table := ← parseTable (← ev.getObjVal? "table") }
+  | "init" =>
+    let rows ← (← ev.getObjVal? "table").getArr?
+    let recs ← rows.toList.filterMapM fun r => do
+      let a ← r.getArr?
+      if a.size < 4 then pure none else
+        match a[3]! with
+        | .null => pure none
+        | j => pure (some ((← a[1]!.getStr?), (← a[2]!.getNat?), (← parseExpr j)))
+    pure { st with table := ← parseTable (← ev.getObjVal? "table"), recs := recs ++ st.recs }
   | "bind" =>
     let v ← (← ev.getObjVal? "v").getStr?
     let dims ← parseDims (← ev.getObjVal? "dims")
